@@ -616,6 +616,22 @@ def task_lemma(args):
     t0 = time.time()
     explore(h, max_paths=opts.get("max_paths", 4000), stats=st, hints=opts.get("hints", ()), range_bound=opts.get("range_bound", 3),
             deadline=t0 + opts.get("seconds", 120))
+    if st.capped and st.paths < opts.get("max_paths", 4000) and not st.cex:
+        # the TIME cap was hit: z3's effort on the same query varies between processes (a lemma that normally takes two
+        # seconds was once seen to exceed two minutes).  One more attempt with another solver seed and three times the
+        # budget; the second result counts, whatever it is.
+        z3.set_param("smt.random_seed", 7)
+        z3.set_param("sat.random_seed", 7)
+        try:
+            st2 = Stats()
+            t1 = time.time()
+            explore(LemmaHarness(module, name, fn, rmode), max_paths=opts.get("max_paths", 4000), stats=st2, hints=opts.get("hints", ()),
+                    range_bound=opts.get("range_bound", 3), deadline=t1 + 3 * opts.get("seconds", 120))
+            st2.solver_s += st.solver_s
+            st = st2
+        finally:
+            z3.set_param("smt.random_seed", 0)
+            z3.set_param("sat.random_seed", 0)
     if rmode and st.cex and not opts.get("no_fmode"):
         # R-mode counterexamples may be artefacts of the over-approximation: also look for exact witnesses
         extra = []
